@@ -104,6 +104,18 @@ func applyFn(id int) dataframe.FuncType {
 			return append([]any{}, x[:len(x)/2]...) // a shorter slice
 		case 11:
 			return append(append([]any{}, x...), "k") // a longer slice
+		case 12:
+			out := make([]int, len(x)/2) // a shorter []int
+			for i := range out {
+				out[i] = i
+			}
+			return out
+		case 13:
+			out := make([]string, len(x)+1) // a longer []string
+			for i := range out {
+				out[i] = "k"
+			}
+			return out
 		default:
 			out := make([]any, len(x))
 			for i, v := range x {
